@@ -1,14 +1,22 @@
 import SeqVerif.Consistency.ActiveLids
+import SeqVerif.Consistency.AggCodecCons
+import SeqVerif.Consistency.ApiAsyncCons
+import SeqVerif.Consistency.ApiSearchCons
 import SeqVerif.Consistency.BinSearch
 import SeqVerif.Consistency.BinSearchSort
 import SeqVerif.Consistency.Borders
+import SeqVerif.Consistency.BulkConfigCons
+import SeqVerif.Consistency.CacheW2
 import SeqVerif.Consistency.Collector
+import SeqVerif.Consistency.CollectorReuseCons
 import SeqVerif.Consistency.CollectorRun
+import SeqVerif.Consistency.DigitsVal
 import SeqVerif.Consistency.DocBytes
 import SeqVerif.Consistency.DocBytesReplay
 import SeqVerif.Consistency.DocPos
 import SeqVerif.Consistency.FileSet
 import SeqVerif.Consistency.FileSetRetention
+import SeqVerif.Consistency.FracInfoFetch
 import SeqVerif.Consistency.FracRange
 import SeqVerif.Consistency.GroupIDs
 import SeqVerif.Consistency.Hist
@@ -16,6 +24,9 @@ import SeqVerif.Consistency.IdOrder
 import SeqVerif.Consistency.IdsLookup
 import SeqVerif.Consistency.IdsLookupActive
 import SeqVerif.Consistency.Int64
+import SeqVerif.Consistency.InverserPool
+import SeqVerif.Consistency.LexerClasses
+import SeqVerif.Consistency.MergeAggsCons
 import SeqVerif.Consistency.MergeQPR
 import SeqVerif.Consistency.MetaCodec
 import SeqVerif.Consistency.Nodes
@@ -26,7 +37,9 @@ import SeqVerif.Consistency.NumValParser
 import SeqVerif.Consistency.PNot
 import SeqVerif.Consistency.Paginate
 import SeqVerif.Consistency.Positions
+import SeqVerif.Consistency.ProxyApiCons
 import SeqVerif.Consistency.ProxyFracLife
+import SeqVerif.Consistency.SealSync
 import SeqVerif.Consistency.Seeds
 import SeqVerif.Consistency.SeedsB
 import SeqVerif.Consistency.SeedsC
